@@ -28,7 +28,9 @@ class InjectedFault(Exception):
 
 
 class _Driver:
-    def __init__(self):
+    def __init__(self, event="LINE"):
+        self.event = getattr(_mon.events, event)
+        self.by_instruction = event == "INSTRUCTION"
         self.prefix = os.path.join(os.path.realpath(core.REPO), "pyemv") + os.sep
         self.active = False
         self.main = None
@@ -48,7 +50,7 @@ class _Driver:
         if self.action is not None and (self.at is None or self.count in self.at):
             self.busy = True
             try:
-                self.where.append(f"{os.path.basename(fn)}:{line}")
+                self.where.append(f"{os.path.basename(fn)}:{code.co_name}+{line}" if self.by_instruction else f"{os.path.basename(fn)}:{line}")
                 self.action()
             finally:
                 self.busy = False
@@ -56,13 +58,13 @@ class _Driver:
 
     def __enter__(self):
         _mon.use_tool_id(TOOL, "verif-interleave")
-        _mon.register_callback(TOOL, _mon.events.LINE, self.cb)
-        _mon.set_events(TOOL, _mon.events.LINE)
+        _mon.register_callback(TOOL, self.event, self.cb)
+        _mon.set_events(TOOL, self.event)
         return self
 
     def __exit__(self, *a):
         _mon.set_events(TOOL, 0)
-        _mon.register_callback(TOOL, _mon.events.LINE, None)
+        _mon.register_callback(TOOL, self.event, None)
         _mon.free_tool_id(TOOL)
 
     def run(self, thunk, at, action):
@@ -106,8 +108,9 @@ def _pick(n, cap):
     return sorted({1, n} | {int(1 + i * step) for i in range(cap)})
 
 
-def session(ctx, keep, PROJ, budget_s, per_call_events):
-    """preemption and fault exploration over the reproducible cases `keep` = [(line, proj, want)]"""
+def session(ctx, keep, PROJ, budget_s, per_call_events, event="LINE"):
+    """preemption and fault exploration over the reproducible cases `keep` = [(line, proj, want)]; switch points are
+    line boundaries (`event="LINE"`) or bytecode instruction boundaries (`"INSTRUCTION"`: also inside one line)"""
     import time
     if not available() or not keep:
         return
@@ -119,7 +122,7 @@ def session(ctx, keep, PROJ, budget_s, per_call_events):
         by_op.setdefault(key, []).append(i)
         by_op.setdefault(w[0], []).append(i)
     stats = {"calls_preempted": 0, "switch_points": 0, "faults_injected": 0, "calls_checked": 0}
-    rnd = ctx.sub("interleave")
+    rnd = ctx.sub("interleave" + event)
     order = list(range(len(keep)))
     rnd.shuffle(order)
 
@@ -135,7 +138,7 @@ def session(ctx, keep, PROJ, budget_s, per_call_events):
     pyexec._live = {}
     failed = False
     try:
-        with _Driver() as drv:
+        with _Driver(event) as drv:
             for xi in order:
                 if time.time() - t0 > budget_s or failed:
                     break
@@ -170,7 +173,7 @@ def session(ctx, keep, PROJ, budget_s, per_call_events):
                     got, _, where = drv.run(xt, {k}, boom)
                     stats["faults_injected"] += 1
                     hist = [f"[cut short by an exception at {where[0] if where else '?'}] {xline}"]
-                    rec = {"mode": "fault", "x": xline, "xproj": xproj, "xwant": xwant, "at": k,
+                    rec = {"mode": "fault", "x": xline, "xproj": xproj, "xwant": xwant, "at": k, "event": event,
                            "ys": [list(keep[j]) for j in ys[1:]]}
                     g2 = core.canon(xt)                      # the same thunk: the same argument objects
                     stats["calls_checked"] += 1
@@ -213,7 +216,7 @@ def session(ctx, keep, PROJ, budget_s, per_call_events):
                         stats["calls_preempted"] += 1; stats["switch_points"] += len(where)
                         hist = [f"[thread 1 starts] {xline}"] + [f"[thread 2, at {p} of thread 1's call] {yline}" for p in where[:3]]
                         rec = {"mode": "preempt", "x": xline, "xproj": xproj, "xwant": xwant, "y": yline, "yproj": yproj, "ywant": ywant,
-                               "at": mode}
+                               "at": mode, "event": event}
                         if not agree(xline, xproj, xwant, got):
                             report("preemption session", xline, xproj, xwant, got, hist,
                                    "the call was preempted at the named line(s) by another complete call in a second thread", rec)
@@ -240,7 +243,8 @@ def session(ctx, keep, PROJ, budget_s, per_call_events):
     ctx.relational["preemption / fault session: same answers"] += stats["calls_preempted"] + stats["calls_checked"]
     ctx.evaluations += stats["calls_preempted"] + stats["calls_checked"] + stats["faults_injected"]
     stats["wall_s"] = round(time.time() - t0, 1)
-    ctx.extra["interleave_session"] = stats
+    stats["switch_points_are"] = "line boundaries" if event == "LINE" else "bytecode instruction boundaries"
+    ctx.extra["interleave_session" if event == "LINE" else "interleave_session_instructions"] = stats
 
 
 def replay(rec, PROJ):
@@ -255,7 +259,7 @@ def replay(rec, PROJ):
         bad += diff
         print(f"  {tag}\n    op    : {line[:300]}\n    model : {want[:200]}\n    pyemv : {got[:200]}\n    {'DISAGREE' if diff else 'agree'}")
     try:
-        with _Driver() as drv:
+        with _Driver(rec.get("event", "LINE")) as drv:
             if rec["mode"] == "preempt":
                 yres = []; threads = []
 
